@@ -1,19 +1,19 @@
-(* C12 -- base of the regeneration model: the file system as a finite map, the primitive
-   file operations the generator performs on it (pathlib.Path.exists / stat / chmod, open(...,"w"),
-   shutil.copy), the error monad, and the little "skeleton" language into which the translator
-   (tools/translators/gen_c12.py) renders the call sequence of the per-file writers of
-   src/nunavut/jinja/__init__.py.  No proofs in this file. *)
+(* C12 -- base of the regeneration model: the output tree as a finite map path -> entry (regular file or directory), the
+   primitive file operations the generator performs on it (pathlib.Path.exists / is_dir / stat / chmod / mkdir(parents),
+   open(...,"w"), shutil.copy), the error monad, and the little "skeleton" language into which the translator
+   (tools/translators/gen_c12.py) renders the call sequence of the per-file writers of src/nunavut/jinja/__init__.py.
+   No proofs in this file. *)
 From Coq Require Import NArith List Bool.
 Import ListNotations.
 Open Scope N_scope.
 
-Definition path := N.                       (* paths are opaque; only equality matters *)
+Definition path := N.                       (* paths below the output directory; opaque, the tree shape is in [env] *)
 
 Record fmeta := mkF {
-  f_cid   : N;        (* abstract content id *)
+  f_cid   : N;        (* abstract content id (0 for directories) *)
   f_mode  : N;        (* permission bits, st_mode & 0o7777 *)
   f_owned : bool;     (* owned by the user running the generator *)
-  f_isdir : bool      (* a directory sits at this path *)
+  f_isdir : bool      (* a directory *)
 }.
 
 Definition fs := path -> option fmeta.
@@ -25,9 +25,10 @@ Definition set_cid (f : fmeta) (c : N) : fmeta := mkF c (f_mode f) (f_owned f) (
 
 Inductive err :=
 | EExists      (* PermissionError raised by _handle_overwrite: file exists and allow_overwrite is False *)
-| EAccess      (* EACCES from open()/mkdir() *)
+| EAccess      (* EACCES / ENOENT from open() or mkdir() *)
 | ENoEnt       (* chmod/stat of a missing path *)
-| EIsDir       (* open(...,"w") of a directory *)
+| EIsDir       (* open(...,"w") of a directory, IsADirectoryError *)
+| ENotDir      (* mkdir(parents=True, exist_ok=True) meets a regular file: FileExistsError / NotADirectoryError *)
 | EPermChmod   (* EPERM: chmod of a file of another user *)
 | EModel.      (* skeleton outside what the interpreter knows (fail closed) *)
 
@@ -35,12 +36,13 @@ Inductive result := Ok | Err (e : err).
 
 Definition is_ok (r : result) : bool := match r with Ok => true | Err _ => false end.
 
-(* ambient facts that no run of the generator changes *)
+(* what no run of the generator changes: who runs it, and the SHAPE of the path space (which path is below which) *)
 Record env := mkEnv {
-  superuser  : bool;            (* effective uid 0: file permission bits are not enforced *)
-  umask      : N;
-  can_create : path -> bool     (* the directory chain of the path exists or can be created and allows a new entry
-                                   (for the superuser: only "no regular file in the way") *)
+  superuser     : bool;            (* effective uid 0: permission bits are not enforced *)
+  umask         : N;
+  root_writable : bool;            (* the output directory itself accepts new entries from this user *)
+  ancestors     : path -> list path;  (* the directories strictly between the output directory and the path, outermost first *)
+  child         : path -> path     (* p/<file name of the packaged resource>: where shutil.copy lands when p is a directory *)
 }.
 
 Definition bind (x : fs * result) (k : fs -> fs * result) : fs * result :=
@@ -52,6 +54,9 @@ Definition bind (x : fs * result) (k : fs -> fs * result) : fs * result :=
 (* ---- primitive operations --------------------------------------------------------------- *)
 Definition fs_exists (s : fs) (p : path) : bool :=
   match s p with Some _ => true | None => false end.
+
+Definition fs_is_dir (s : fs) (p : path) : bool :=
+  match s p with Some f => f_isdir f | None => false end.
 
 (* Path.stat().st_mode; only ever evaluated under an exists() guard in the code *)
 Definition fs_st_mode (s : fs) (p : path) : N :=
@@ -66,40 +71,76 @@ Definition fs_chmod (e : env) (s : fs) (p : path) (m : N) : fs * result :=
               else (s, Err EPermChmod)
   end.
 
-(* owner class decides for own files (bit 7 = 0o200), "other" class for foreign ones (bit 1 = 0o002) *)
+(* write permission: owner class decides for own entries (bit 7 = 0o200), "other" class for foreign ones (bit 1 = 0o002);
+   for a directory this is the permission to add an entry (search permission is not modelled) *)
 Definition writable (e : env) (f : fmeta) : bool :=
   superuser e || (if f_owned f then N.testbit (f_mode f) 7 else N.testbit (f_mode f) 1).
 
-(* open(p, "w") ... write everything ... close : truncates an existing file (mode kept) or creates
-   a new one with 0o666 & ~umask *)
-Definition fs_write (e : env) (s : fs) (p : path) (c : N) : fs * result :=
-  match s p with
+(* does the directory d (None = the output directory) exist as a directory that accepts a new entry? *)
+Definition allows (e : env) (s : fs) (d : option path) : bool :=
+  match d with
+  | None => root_writable e
+  | Some a => match s a with Some f => f_isdir f && writable e f | None => false end
+  end.
+
+Definition new_dir (e : env) : fmeta := mkF 0 (N.ldiff 511 (umask e)) true true.       (* 0o777 & ~umask *)
+
+(* Path.mkdir(parents=True, exist_ok=True) of the directory chain l (outermost first), standing in directory prev *)
+Fixpoint mkdirs (e : env) (prev : option path) (l : list path) (s : fs) : fs * result :=
+  match l with
+  | [] => (s, Ok)
+  | a :: r =>
+      match s a with
+      | Some f => if f_isdir f then mkdirs e (Some a) r s else (s, Err ENotDir)
+      | None => if allows e s prev then mkdirs e (Some a) r (upd s a (new_dir e)) else (s, Err EAccess)
+      end
+  end.
+
+(* the innermost directory of a chain walked from prev *)
+Fixpoint last_from (prev : option path) (l : list path) : option path :=
+  match l with [] => prev | a :: r => last_from (Some a) r end.
+
+Definition parent_of (e : env) (p : path) : option path := last_from None (ancestors e p).
+
+(* open(q, "w") ... write everything ... close, q being an entry of directory d: truncates an existing file (mode kept)
+   or creates a new one with 0o666 & ~umask *)
+Definition fs_write_in (e : env) (s : fs) (d : option path) (q : path) (c : N) : fs * result :=
+  match s q with
   | Some f => if f_isdir f then (s, Err EIsDir)
-              else if writable e f then (upd s p (set_cid f c), Ok)
+              else if writable e f then (upd s q (set_cid f c), Ok)
               else (s, Err EAccess)
-  | None => if can_create e p
-            then (upd s p (mkF c (N.ldiff 438 (umask e)) true false), Ok)
+  | None => if allows e s d
+            then (upd s q (mkF c (N.ldiff 438 (umask e)) true false), Ok)
             else (s, Err EAccess)
   end.
 
-(* shutil.copy(src, dst) = copyfile (open(dst,"wb")) followed by copymode (chmod(dst, S_IMODE(src))) *)
+Definition fs_write (e : env) (s : fs) (p : path) (c : N) : fs * result := fs_write_in e s (parent_of e p) p c.
+
+(* shutil.copy(src, dst): "If dst specifies a directory, the file will be copied into dst using the base filename from src";
+   then copyfile (open(dst,"wb")) followed by copymode (chmod(dst, S_IMODE(src))) *)
 Definition fs_copy (e : env) (s : fs) (p : path) (c : N) (srcmode : N) : fs * result :=
-  bind (fs_write e s p c) (fun s1 => fs_chmod e s1 p srcmode).
+  if fs_is_dir s p
+  then bind (fs_write_in e s (Some p) (child e p) c) (fun s1 => fs_chmod e s1 (child e p) srcmode)
+  else bind (fs_write e s p c) (fun s1 => fs_chmod e s1 p srcmode).
 
 (* ---- configuration of one run -------------------------------------------------------------- *)
 Inductive filepp :=
 | PPSetFileMode (m : N).        (* nunavut._postprocessors.SetFileMode(m) *)
 
+Inductive gsmode := GSAlways | GSNever | GSAsNeeded | GSOnly.     (* --generate-support *)
+
 Record cfg := mkCfg {
-  c_class     : N;       (* everything that determines the rendered text (language, options, line post-processors, ...) *)
+  c_class     : N;       (* everything that is SUPPOSED to determine the rendered text (language, options, line post-processors, ...) *)
+  c_amb       : N;       (* everything else a run could see: clock, process state, hash seed, ... *)
   c_allow     : bool;    (* allow_overwrite = not --no-overwrite *)
   c_dryrun    : bool;
-  c_linepps   : bool;    (* at least one line post-processor *)
+  c_linepps   : bool;    (* at least one line post-processor (command line or language configuration) *)
   c_filepps   : list filepp;         (* file post-processors in order *)
-  c_gen_support : bool;  (* ArgparseRunner._should_generate_support() *)
-  c_gen_types : bool;    (* --generate-support != only *)
-  c_support   : list (path * bool);  (* support targets in iteration order; true = jinja template (.j2) resource *)
-  c_types     : list path;           (* type targets in iteration order *)
+  c_gensup    : gsmode;  (* --generate-support *)
+  c_omit      : bool;    (* --omit-serialization-support *)
+  c_sersup    : list (path * bool);  (* targets of the SERIALIZATION_SUPPORT resources in order; true = jinja template (.j2) *)
+  c_typesup   : list (path * bool);  (* targets of the TYPE_SUPPORT resources *)
+  c_types     : list path;           (* type (and namespace) file targets in generation order: C11's c11_targets *)
   c_resmode   : N        (* permission bits of the packaged support resources (shutil.copy copies them) *)
 }.
 
